@@ -43,7 +43,9 @@ Expected(r) ==
             IN [s |-> ts, e |-> te, fs |-> ts, fe |-> IF f.present /\ f.matched THEN te + f.mend - trim ELSE te,
                 ps |-> ts, pe |-> te]
 WindowOK(r) ==
-  /\ (r.fwd.present => r.fwd.wlen = Min(r.fwd.pre + FwdLen(r.words, r.idx + 1, r.fwd.strings, 0), MaxMatch))
+  \* (the window is cut to MAX_MATCH_CHARS when a token is appended: a bare prefix is never cut)
+  /\ (r.fwd.present => LET fl == FwdLen(r.words, r.idx + 1, r.fwd.strings, 0) IN
+                        r.fwd.wlen = IF fl = 0 THEN r.fwd.pre ELSE Min(r.fwd.pre + fl, MaxMatch))
   /\ (r.back.present => r.back.wlen = BackLen(r.words, r.idx - 1, 0))
 
 TInit == tid = 0 /\ bucket \in 0..(NB - 1)
